@@ -1,6 +1,8 @@
 """Edit histories of one buffer (C08): a generated base program and a sequence of editor-like
 edits (insert / delete / replace lines and characters, indent / dedent blocks, cut / paste / move,
-duplicate, rename everywhere, change a signature, undo, redo of the same text).
+duplicate, rename everywhere, change a signature, undo, redo of the same text; with `revisit` also
+exact returns to earlier states: undo / redo along an undo stack, revert to any earlier version,
+toggling between two texts).
 
 Everything is a list of lines without terminators; `text(lines)` joins them.  Generators avoid what
 the sandbox cannot do (empty typeshed): True/False/None, builtin call results, `Class.` / `func.`
@@ -236,13 +238,54 @@ def edit(rng, lines, state):
     return kind, ls
 
 
-def history(rng, length):
-    """list of (edit kind, text) of `length`+1 versions, the first being the base program"""
+REVISITS = ['undo', 'undo', 'redo', 'revert', 'toggle']
+
+
+def history(rng, length, revisit=0.0):
+    """list of (edit kind, text) of `length`+1 versions, the first being the base program.
+
+    `revisit` = probability that a step RETURNS to an earlier state of the buffer, character for
+    character, the way an editor does: `undo` / `redo` walk the editor's undo stack (an ordinary
+    edit cuts the redo branch off), `revert` goes back to any earlier version at any distance
+    (checkout, reload from disk, undo tree), `toggle` alternates between the last two different
+    texts (comment a line in and out: A B A B ...)."""
     lines = base_program(rng)
     state = {'clip': [], 'past': []}
     out = [('base', text(lines))]
+    versions = [(lines, out[0][1])]      # every version so far
+    stack, pos = [0], 0                   # undo stack of indices into versions, pointer
     for _ in range(length):
         state['past'].append(lines)
-        kind, lines = edit(rng, lines, state)
-        out.append((kind, text(lines, final_newline=rng.random() < 0.9)))
+        vi = None
+        if revisit and rng.random() < revisit:
+            kind = rng.choice(REVISITS)
+            cur = versions[-1][1]
+            if kind == 'undo' and pos > 0:
+                pos -= 1
+                vi = stack[pos]
+            elif kind == 'redo' and pos + 1 < len(stack):
+                pos += 1
+                vi = stack[pos]
+            elif kind == 'toggle':
+                other = [i for i in range(len(versions) - 1, -1, -1) if versions[i][1] != cur]
+                if other:
+                    vi = other[0]
+                    stack[pos + 1:] = [vi]
+                    pos += 1
+            elif kind == 'revert':
+                other = [i for i in range(len(versions)) if versions[i][1] != cur]
+                if other:
+                    vi = rng.choice(other)
+                    stack[pos + 1:] = [vi]
+                    pos += 1
+        if vi is not None:
+            lines, t = versions[vi]
+            kind = 'revisit-' + kind
+        else:
+            kind, lines = edit(rng, lines, state)
+            t = text(lines, final_newline=rng.random() < 0.9)
+            stack[pos + 1:] = [len(versions)]
+            pos += 1
+        versions.append((lines, t))
+        out.append((kind, t))
     return out
